@@ -3,6 +3,7 @@ import MidnightZK.Gen.C07Poseidon
 import MidnightZK.Proofs.C07.Eval
 import MidnightZK.Proofs.C07.ShaSpec
 import MidnightZK.Proofs.C07.Varlen
+import MidnightZK.Proofs.C07.GrainAll
 /-!
 # C07 — hash gadgets equal their reference functions on every message
 Property theorems (helper lemmas live in `MidnightZK/Proofs/C07`).
@@ -11,14 +12,15 @@ namespace MidnightZK.C07
 
 /-- The shipped parameter shape is the one the code assumes: `WIDTH = RATE + 1`, an even number of
 full rounds, `ROUND_CONSTANTS` has `NB_FULL_ROUNDS + NB_PARTIAL_ROUNDS` rows of `WIDTH` entries, `MDS`
-is `WIDTH × WIDTH`, and both skip counts divide the partial rounds into whole batches
-(`NB_PARTIAL_ROUNDS % (1 + NB_SKIPS) = 0`, asserted by `round_constants_circuit` for the circuit). -/
+is `WIDTH × WIDTH`, and the circuit's skip count divides the partial rounds into whole batches
+(`NB_PARTIAL_ROUNDS % (1 + NB_SKIPS_CIRCUIT) = 0`, asserted by `round_constants_circuit`; the CPU
+version runs the remainder as raw rounds and needs no such condition). -/
 theorem params_shape :
     Gen.width = Gen.rate + 1 ∧ Gen.nbFull % 2 = 0 ∧
     Gen.roundConstants.length = Gen.nbFull + Gen.nbPartial ∧
     (Gen.roundConstants.all (fun r => r.length == Gen.width)) = true ∧
     Gen.mds.length = Gen.width ∧ (Gen.mds.all (fun r => r.length == Gen.width)) = true ∧
-    Gen.nbPartial % (1 + Gen.nbSkipsCircuit) = 0 ∧ Gen.nbPartial % (1 + Gen.nbSkipsCpu) = 0 := by
+    Gen.nbPartial % (1 + Gen.nbSkipsCircuit) = 0 := by
   decide +kernel
 
 /-- Every integer written in `Fq::from_raw([..])` in `constants/blstrs.rs` is already reduced
@@ -27,6 +29,16 @@ theorem constants_canonical :
     (Gen.roundConstants.all (fun r => r.all (fun c => decide (c < Gen.p)))) = true ∧
     (Gen.mds.all (fun r => r.all (fun c => decide (c < Gen.p)))) = true := by
   decide +kernel
+
+/-- **Published constants.** The 204 round constants and the MDS matrix of `constants/blstrs.rs` are
+the output of the generation documented in that file (`generate_parameters_grain.sage 1 0 255 3 8 60
+p`): the round constants are, in order, the first `(R_F + R_P)·t` field elements of the Grain LFSR
+stream (80-bit LFSR seeded with the parameter encoding, 160 discarded bits, self-shrinking output,
+rejection sampling below `p`), and `MDS[i][j] = 1/(xᵢ + yⱼ)` for the next `2t` (distinct) elements.
+Kernel evaluation of `Model/C07/Grain.lean` on the generated tables. -/
+theorem poseidon_constants_published :
+    Grain.check Gen.p 255 Gen.width Gen.nbFull Gen.nbPartial Gen.roundConstants Gen.mds = true :=
+  Grain.check_ok
 
 /-! ## Poseidon: round skips and the off-circuit permutation -/
 
